@@ -6,7 +6,7 @@
 (* with spaces).  The peer sends an A-ASSOCIATE-RQ and, whatever the       *)
 (* answer, a C-ECHO request afterwards.                                    *)
 (***************************************************************************)
-EXTENDS Integers, FiniteSets, TLC
+EXTENDS Integers, FiniteSets, Sequences, TLC
 
 Cores == {"CALLER", "caller", "CALL ER", "OTHER"}
 T(core, lead, trail) == [core |-> core, lead |-> lead, trail |-> trail]
@@ -20,15 +20,40 @@ IdentityOpts == {"none", "unbound", "true", "false", "falsy", "raise"}
 \* how the application configured the required-calling list: by assignment, or by mutating the list it got back
 HowOpts == {"assign", "inplace"}
 
+\* ---- configuration history of the server's EVT_USER_ID slot (an intervention event: one handler at a time) ----
+\* The running server was started with `start` bound ("none": nothing, "ok": an accept-all handler, "H": the handler that
+\* gives the case's verdict), then the application called bind / unbind.  bind(h) replaces whatever is bound; unbind(h)
+\* restores the default only if h is the handler bound - unbinding a handler that is not bound changes nothing.
+Handlers == {"ok", "H"}
+SlotOps == {<<o, h>> : o \in {"bind", "unbind"}, h \in Handlers}
+ApplyOp(slot, op) == IF op[1] = "bind" THEN op[2] ELSE IF slot = op[2] THEN "none" ELSE slot
+RECURSIVE Slot(_, _)
+Slot(slot, ops) == IF ops = <<>> THEN slot ELSE Slot(ApplyOp(slot, Head(ops)), Tail(ops))
+PlainHist(identity) == [start |-> IF identity \in {"none", "unbound"} THEN "none" ELSE "H", ops |-> <<>>]
+Reconfigured == {h \in [start : {"none", "ok", "H"}, ops : UNION {[1..n -> SlotOps] : n \in 1..2}] : TRUE}
+\* what decides on the identity in the end
+Effective(k) == IF k.identity = "none" THEN "none"
+                ELSE LET s == Slot(k.idhist.start, k.idhist.ops) IN
+                     CASE s = "none" -> "unbound" [] s = "ok" -> "true" [] OTHER -> k.identity
+
 VARIABLES c, phase, outcome, handlerCalls
 vars == <<c, phase, outcome, handlerCalls>>
-Init == /\ c \in [calling : CallingOpts, required : RequiredOpts, called : CalledOpts, own : OwnOpts, requireCalled : BOOLEAN, identity : IdentityOpts, how : HowOpts]
+Base == [calling : CallingOpts, required : RequiredOpts, called : CalledOpts, own : OwnOpts, requireCalled : BOOLEAN, identity : IdentityOpts, how : HowOpts]
+Ext(b, h) == [calling |-> b.calling, required |-> b.required, called |-> b.called, own |-> b.own, requireCalled |-> b.requireCalled,
+              identity |-> b.identity, how |-> b.how, idhist |-> h]
+\* every policy combination with the handler bound from the start, and every slot history for every verdict
+Cases == {Ext(b, PlainHist(b.identity)) : b \in Base}
+         \cup {Ext(b, h) : b \in {x \in Base : /\ x.calling = T("CALLER", 0, 0) /\ x.required \in {{}, {T("X", 0, 0)}} /\ x.called = T("ACCEPTOR", 0, 0)
+                                              /\ x.own = T("ACCEPTOR", 0, 0) /\ ~x.requireCalled /\ x.how = "assign"
+                                              /\ x.identity \in {"true", "false", "falsy", "raise"}},
+                            h \in Reconfigured}
+Init == /\ c \in Cases
         /\ phase = "rq" /\ outcome = "none" /\ handlerCalls = 0
 
 \* ---- the policy (shared with Trace_Policy) ----
 CallingOK(k) == k.required = {} \/ \E r \in k.required : r.core = k.calling.core
 CalledOK(k) == ~k.requireCalled \/ k.called.core = k.own.core
-IdentityOK(k) == k.identity \in {"none", "unbound", "true"}
+IdentityOK(k) == Effective(k) \in {"none", "unbound", "true"}
 Allowed(k) == CallingOK(k) /\ CalledOK(k) /\ IdentityOK(k)
 \* reject codes (source, reason) PS3.8 Table 9-21: service-user 1: calling AE title not recognised 3, called 7
 Reasons(k) == (IF CallingOK(k) THEN {} ELSE {<<1, 3>>}) \cup (IF CalledOK(k) THEN {} ELSE {<<1, 7>>})
